@@ -17,6 +17,7 @@ INVARIANT InvInverse
 INVARIANT InvNoSelf
 INVARIANT InvStored
 INVARIANT InvLevels
+INVARIANT InvUpdateKeeps
 """
 
 
@@ -63,6 +64,16 @@ def run_case(c):
         rest = [enc(f.id) for f in unit[1:]]
         if sorted(rest) != sorted(kids0.get(key(head), [])):
             fails.append(("iter_by_parent_childs", [dec(head), rest]))
+    # an update with one unrelated feature leaves the relations as they were
+    try:
+        from . import gen_db as G2
+        with dbio.quiet():
+            db.update([G2.real_feature(G2.feat("gene", 1, 9, [("ID", ["u"])]))], make_backup=False)
+        rows2 = [list(r) for r in dbio.rel_rows(db.conn)]
+        if sorted(rows2) != sorted(c["relsAfterUpdate"]):
+            fails.append(("relations_after_update", rows2))
+    except Exception as ex:  # noqa
+        fails.append(("update_raised", type(ex).__name__))
     # Feature objects as arguments, order_by / reverse do not change the set
     for e in c["kids"]:
         if e["l"] == 0 and e["ids"]:
@@ -71,7 +82,7 @@ def run_case(c):
             except Exception:  # dangling name
                 continue
             got = dbio.ids_of(db.children(f, order_by="start", reverse=True))
-            if sorted(got) != sorted(e["ids"]):
+            if sorted(got) != sorted(e["ids"]) and not any(cl == "relations_after_update" for cl, _ in fails):
                 fails.append(("children_feature_arg", [dec(e["x"]), got]))
     return fails
 
